@@ -64,35 +64,41 @@ def run(ctx):
     # corpus: the recorded findings' witnesses and their neighbours run first
     nan = float("nan")
     corpus = [
-        (schema.list([schema.int, ...]).len(3), [1, 2, 3]),
-        (schema.list([..., schema.int]).len(1, 4), [None, 1]),
-        (schema.str.alphabet(""), ""),
-        (schema.any(schema.int.min(5).max(3), schema.str("x")), "x"),
-        (schema.dict({"a": schema.any(schema.str.len(3, 1), schema.none)}), {"a": None}),
-        (schema.float.min(-1.5e308).max(1.5e308), 0.0),
-        (schema.float.min(0.11).max(0.19).precision(1), 0.15),
-        (schema.float.min(0.29).max(0.31).precision(2), 0.3),
-        (schema.float.min(0.15).precision(1), 0.2),
-        (schema.float.max(-0.15).precision(1), -0.2),
-        (schema.float.min(-0.35).max(-0.15).precision(1), -0.2),
-        (schema.str.len(40, ...), "x" * 40),
-        (schema.str.contains("ab").len(40, ...), "ab" + "x" * 38),
-        (schema.str.alphabet("xyz").contains("zz").len(33, ...), "zz" + "x" * 31),
-        (schema.str.contains("q" * 40), "q" * 40),
-        (schema.str.contains("ab").len(40, 60), "ab" + "x" * 38),
-        (schema.list(schema.str.contains("a").len(35, ...)).len(17, ...), ["a" * 35] * 17),
-        (schema.list(schema.int).len(20, ...), [0] * 20),
-        (schema.int.min(2 ** 63), 2 ** 63),
-        (schema.int.max(-2 ** 63 - 1), -2 ** 63 - 1),
-        (schema.float.min(1e19), 1e19),
-        (schema.float.max(-1e19), -1e19),
-        (schema.str.contains("abc").len(3), "abc"),
-        (schema.str.contains("abc").len(..., 3), "abc"),
-        (schema.str.alphabet("ab").contains("ba").len(2, 5), "ba"),
-        (schema.list([..., schema.int(1), ...]), [1]),
-        (schema.bytes, b""), (schema.uuid4, None), (schema.date, None), (schema.datetime, None),
+        (lambda: schema.list([schema.int, ...]).len(3), [1, 2, 3]),
+        (lambda: schema.list([..., schema.int]).len(1, 4), [None, 1]),
+        (lambda: schema.str.alphabet(""), ""),
+        (lambda: schema.any(schema.int.min(5).max(3), schema.str("x")), "x"),
+        (lambda: schema.dict({"a": schema.any(schema.str.len(3, 1), schema.none)}), {"a": None}),
+        (lambda: schema.float.min(-1.5e308).max(1.5e308), 0.0),
+        (lambda: schema.float.min(0.11).max(0.19).precision(1), 0.15),
+        (lambda: schema.float.min(0.29).max(0.31).precision(2), 0.3),
+        (lambda: schema.float.min(0.15).precision(1), 0.2),
+        (lambda: schema.float.max(-0.15).precision(1), -0.2),
+        (lambda: schema.float.min(-0.35).max(-0.15).precision(1), -0.2),
+        (lambda: schema.str.len(40, ...), "x" * 40),
+        (lambda: schema.str.contains("ab").len(40, ...), "ab" + "x" * 38),
+        (lambda: schema.str.alphabet("xyz").contains("zz").len(33, ...), "zz" + "x" * 31),
+        (lambda: schema.str.contains("q" * 40), "q" * 40),
+        (lambda: schema.str.contains("ab").len(40, 60), "ab" + "x" * 38),
+        (lambda: schema.list(schema.str.contains("a").len(35, ...)).len(17, ...), ["a" * 35] * 17),
+        (lambda: schema.list(schema.int).len(20, ...), [0] * 20),
+        (lambda: schema.int.min(2 ** 63), 2 ** 63),
+        (lambda: schema.int.max(-2 ** 63 - 1), -2 ** 63 - 1),
+        (lambda: schema.float.min(1e19), 1e19),
+        (lambda: schema.float.max(-1e19), -1e19),
+        (lambda: schema.str.contains("abc").len(3), "abc"),
+        (lambda: schema.str.contains("abc").len(..., 3), "abc"),
+        (lambda: schema.str.alphabet("ab").contains("ba").len(2, 5), "ba"),
+        (lambda: schema.list([..., schema.int(1), ...]), [1]),
+        (lambda: schema.bytes, b""),
     ]
-    corpus = [(s, w) for s, w in corpus if w is not None] + [
+    built = []
+    for mk, w in corpus:
+        try:
+            built.append((mk(), w))
+        except Exception as e:  # noqa: BLE001  (a corpus entry the tree under test cannot even declare is skipped, counted)
+            ctx.count("corpus_build_exception:" + type(e).__name__)
+    corpus = built + valcases.scalar_corpus() + [
         (schema.uuid4, SR.FIXED_UUIDS[0]), (schema.date, SR.FIXED_TODAY), (schema.datetime, SR.FIXED_NOW)]
     pairs = corpus + pairs
     cases = []
